@@ -1,6 +1,6 @@
 CONSTANTS
- MaxSegs = 2
- PtrMode = FALSE
+ MaxSegs = 0
+ PtrMode = TRUE
  Nested = FALSE
 INIT Init
 NEXT Next
